@@ -125,6 +125,12 @@ class GenericModelCodeGenerator:
     def convert_class_name(self, name):
         return prepare_label(name, convert_unicode=self.convert_unicode, to_snake_case=False)
 
+    def reserve_field_name(self, label: str):
+        """
+        Mark the label as taken so that no field of the model gets it
+        """
+        self._field_labels.setdefault(label, None)
+
     @cached_method
     def convert_field_name(self, name):
         label = prepare_label(name, convert_unicode=self.convert_unicode, to_snake_case=True)
@@ -244,6 +250,7 @@ def _generate_code(
     # by name, so every generator has to exist before the first class is rendered.
     generators = _create_generators(structure, class_generator, class_generator_kwargs)
     _fix_class_name_duplicates(generators)
+    _reserve_child_class_names(generators)
     return _render_generators(generators)
 
 
@@ -280,6 +287,17 @@ def _fix_class_name_duplicates(generators: List[tuple]):
         used.add(name)
         if name != model.name:
             model.set_raw_name(name, generated=model.is_name_generated)
+
+
+def _reserve_child_class_names(generators: List[tuple]):
+    """
+    In the nested layout the class of a child model shares the class body with the fields of its parent:
+    no field may get the name of such a class (in both layouts, so that they agree on the field names)
+    """
+    for gen, nested_generators in generators:
+        for ptr in gen.model.child_pointers:
+            gen.reserve_field_name(ptr.type.name)
+        _reserve_child_class_names(nested_generators)
 
 
 def _render_generators(generators: List[tuple]) -> Tuple[ImportPathList, List[str]]:
